@@ -187,6 +187,22 @@ theorem as_is_counterexample :
     computeNextSteps true witnessCfgs witnessHistory = .ok [.bot "a"] := by
   decide
 
+/-- witness of `nested-subflow-decides-early`: f0 = `user u2 / bot b2 / do s0 / bot b3`,
+    s0 = `$x = 0 / do s1 / bot b1`, s1 = `user u1 / $r = execute a1`; history u2, b2 -/
+def witnessNested : Cfgs :=
+  [{ id := "f0", elems := compile (.step (.user "u2") (.step (.bot "b2") (.step (.doFlow "s0") (.step (.bot "b3") .nil)))) },
+   { id := "s0", isSubflow := true, elems := compile (.set "x" (.lit (.int 0)) (.step (.doFlow "s1") (.step (.bot "b1") .nil))) },
+   { id := "s1", isSubflow := true, elems := compile (.step (.user "u1") (.step (.exec "a1" "{}" (some "r")) .nil)) }]
+
+/-- **Open finding `nested-subflow-decides-early`, kernel-checked on the model of the code as it is**
+    (finite fact, `decide`): after `bot b2` the flow is inside s0 inside s1 waiting for `user u1`; the code
+    as it is decides s0's statement after the nested call (`bot b1`); with the proposed repair nothing but
+    the assignment's context update is decided. -/
+theorem as_is_counterexample_nested :
+    computeNextSteps false witnessNested [.userIntent "u2", .botIntent "b2"] = .ok [.ctx [("x", .int 0)], .bot "b1"] ∧
+    computeNextSteps true witnessNested [.userIntent "u2", .botIntent "b2"] = .ok [.ctx [("x", .int 0)]] := by
+  decide
+
 /-- `break` / `continue` never escape a program in which they occur only inside loops. -/
 theorem closed_no_escape : ∀ (f : Nat) (p : Prog) (st : SSt), closed false p = true →
     (∀ s, exec f st p ≠ .brk s) ∧ (∀ s, exec f st p ≠ .cnt s) := by
